@@ -293,7 +293,7 @@ func structuralNodes() [][]byte {
 		}
 	}
 	bytesOf := func(n int, v byte) []byte { return bytes.Repeat([]byte{v}, n) }
-	childLens := []int{0, 1, 8, 31, 32, 39, 40, 41, 47, 48, 63, 64, 71, 72, 73, 80, 100}
+	childLens := []int{0, 1, 8, 31, 32, 39, 40, 41, 47, 48, 63, 64, 71, 72, 73, 80, 100, 104, 105, 135, 136, 137, 138, 200, 264, 265, 1000} // 72+n: an embedded shared-prefix child with a key of n nibbles (64 is the longest a real key gives)
 	for _, n := range []int{0, 1, 2, 15, 16, 17, 20, 32} {
 		for _, l := range childLens {
 			// all children of length l
